@@ -157,7 +157,7 @@ Deserialize(bs) ==
 MaxU32 == <<255, 255, 255, 255>>
 StrAtoms(u_) == IF Deep THEN {<<>>, <<97>>, <<0>>, <<97, 98>>, <<255, 10>>} ELSE {<<>>, <<97>>, <<0>>}
 CallSeqs(u_) == UNION {[1 .. n -> StrAtoms(0)] : n \in 0 .. 3}                     \* add_string calls, repeats included
-Codes(u_) == {<<>>, <<0>>, <<1, 2, 3, 4>>}
+Codes(u_) == {<<>>, <<1, 2, 3, 4>>} \cup (IF Deep THEN {<<0>>} ELSE {})
 F0 == [name |-> U32(0), arity |-> U16(0), off |-> U32(0), len |-> U32(0), locals |-> U16(0), upvalues |-> U16(0)]
 F1 == [name |-> U32(1), arity |-> U16(65535), off |-> MaxU32, len |-> U32(1), locals |-> U16(1), upvalues |-> <<0, 128>>]
 F2 == [name |-> MaxU32, arity |-> U16(258), off |-> U32(16909060), len |-> MaxU32, locals |-> U16(65535), upvalues |-> U16(513)]
@@ -169,7 +169,7 @@ ImpTables(u_) == {<<>>, <<I0>>, <<I1>>, <<I2>>, <<I1, I2>>, <<I0, I0>>} \cup (IF
 D0 == [off |-> U32(0), line |-> U32(0)]
 D1 == [off |-> MaxU32, line |-> U32(16909060)]
 DbgTables(u_) == {<<>>, <<D0>>, <<D0, D1>>} \cup (IF Deep THEN {<<D1>>, <<D1, D1>>} ELSE {})
-Heads(u_) == {<<U32(0), U32(0)>>, <<U32(1), U32(1)>>, <<U32(7), MaxU32>>, <<MaxU32, U32(0)>>}          \* <<flags, entry>>
+Heads(u_) == {<<U32(0), U32(0)>>, <<U32(1), U32(1)>>, <<MaxU32, MaxU32>>} \cup (IF Deep THEN {<<U32(7), U32(0)>>, <<U32(0), U32(16909060)>>} ELSE {})         \* <<flags, entry>>
 
 Modules(u_) == {[calls |-> cs,
                  m |-> [strings |-> BuildPool(cs, <<>>, <<>>).pool, code |-> cd, functions |-> ft, imports |-> it, debug |-> dt,
@@ -178,25 +178,33 @@ Modules(u_) == {[calls |-> cs,
 
 RealFiles(u_) == LET real == ndJsonDeserialize(RealFile) IN {[calls |-> <<>>, idx |-> i, bytes |-> real[i].bytes] : i \in DOMAIN real}
 
-VARIABLES x, phase
-vars == <<x, phase>>
+VARIABLES x,       \* the case: a module (with the add_string calls that built its pool) or a real file
+          phase,   \* "new" -> "done"
+          ser,     \* Serialize(x.m)
+          back,    \* Deserialize(ser)
+          again    \* Serialize(back.m)
+vars == <<x, phase, ser, back, again>>
 
-Emit(c) == [calls |-> c.calls, idxs |-> BuildPool(c.calls, <<>>, <<>>).idxs, m |-> c.m, bytes |-> Serialize(c.m),
-            law |-> "deserialize(serialize(m)) = m field by field; serialize(deserialize(serialize(m))) = serialize(m)"]
-EmitReal(c) == LET d == Deserialize(c.bytes) IN
-               [idx |-> c.idx, ok |-> d.ok, m |-> d.m, reserialized_equal |-> d.ok /\ Serialize(d.m) = c.bytes]
+Emit(c, bytes) == [calls |-> c.calls, idxs |-> BuildPool(c.calls, <<>>, <<>>).idxs, m |-> c.m, bytes |-> bytes,
+                   law |-> "deserialize(serialize(m)) = m field by field; serialize(deserialize(serialize(m))) = serialize(m)"]
+EmitReal(c, d, re) == [idx |-> c.idx, ok |-> d.ok, m |-> d.m, reserialized_equal |-> d.ok /\ re = c.bytes]
 
-Init == x \in (IF RealFile = "" THEN Modules(0) ELSE RealFiles(0)) /\ phase = "new"
+Init == /\ x \in (IF RealFile = "" THEN Modules(0) ELSE RealFiles(0))
+        /\ phase = "new" /\ ser = <<>> /\ back = Fail /\ again = <<>>
+\* one step per case: serialize, load, serialize again (for a real file: load, serialize)
 Check == /\ phase = "new"
-         /\ PrintT("@@J " \o ToJson(IF RealFile = "" THEN Emit(x) ELSE EmitReal(x)))
+         /\ ser' = IF RealFile = "" THEN Serialize(x.m) ELSE x.bytes
+         /\ back' = Deserialize(ser')
+         /\ again' = Serialize(back'.m)
+         /\ PrintT("@@J " \o ToJson(IF RealFile = "" THEN Emit(x, ser') ELSE EmitReal(x, back', again')))
          /\ phase' = "done" /\ UNCHANGED x
 Next == Check
 
 (* ------------------------------------------------------------------ the laws *)
-Generated == RealFile = ""
+Generated == RealFile = "" /\ phase = "done"
 PoolDupFree == Generated => DupFree(x.m.strings)
-RoundTrip   == Generated => Deserialize(Serialize(x.m)) = [ok |-> TRUE, m |-> x.m]
-Idempotent  == Generated => LET b == Serialize(x.m) IN Serialize(Deserialize(b).m) = b
-SizeLaw     == Generated => Len(Serialize(x.m)) = HeaderSize + Len(Sections(x.m)) * DirEntrySize
-                                                  + Len(StrSec(x.m)) + Len(x.m.code) + Len(FnSec(x.m)) + Len(DbgSec(x.m)) + Len(ImpSec(x.m))
+RoundTrip   == Generated => back = [ok |-> TRUE, m |-> x.m]
+Idempotent  == Generated => again = ser
+SizeLaw     == Generated => Len(ser) = HeaderSize + Len(Sections(x.m)) * DirEntrySize
+                                       + Len(StrSec(x.m)) + Len(x.m.code) + Len(FnSec(x.m)) + Len(DbgSec(x.m)) + Len(ImpSec(x.m))
 =============================================================================
